@@ -586,6 +586,13 @@ def _universe(run):
     return sorted(exts), mime_keys, len(keys), n_router, router_only, len(mt)
 
 
+def _spellings(t: str) -> list[str]:
+    """Non-canonical spellings of a media type."""
+    major, _, minor = t.partition("/")
+    out = [t.upper(), major.capitalize() + "/" + minor.upper(), t + "; charset=utf-8", t + ";q=0.9", t + " ", " " + t, t + "\t", t.replace("/", " / "), t + ";"]
+    return [x for x in dict.fromkeys(out) if x != t]
+
+
 def _configs(mime_keys: list[str]):
     shadow = []
     pool = [t for t in MIME_FAMILY]
@@ -598,6 +605,9 @@ def _configs(mime_keys: list[str]):
                 break
     shadow += [["text/plain", ".zzz"], ["application/x-verif-unknown", ".yyy"], ["application/pdf", ".gzx"]]
     keys_add = [[k, f".vq{i}"] for i, k in enumerate(mime_keys)]
+    # the same media types as a host database / registry may spell them: other case, parameters, padding (a spelling that is not a key of the
+    # fallback table must be refused by both entry points, or accepted by both)
+    keys_add += [[sp, f".vs{i}x{j}"] for i, k in enumerate(mime_keys) for j, sp in enumerate(_spellings(k))]
     cfgs = [
         {"name": "default"},
         {"name": "empty", "clear": True},
@@ -658,7 +668,8 @@ def _dispatch_items(run):
     return items
 
 
-SEQ_TYPES = ["text/plain", "application/pdf", "text/html", "application/zip", "message/rfc822", "application/x-verif-unknown"]
+SEQ_TYPES = ["text/plain", "application/pdf", "text/html", "application/zip", "message/rfc822", "application/x-verif-unknown",
+             "Text/HTML", "APPLICATION/PDF", "text/plain; charset=utf-8", "application/zip ", " message/rfc822", "Text/Plain;format=flowed", "application/PDF;"]
 
 
 def _sequence_cases(run, cfgs, canary, wl, universe):
